@@ -156,14 +156,23 @@ mod ho {
     }
 
     pub fn explore_probe(src: &str, max_devs: usize, what: u8) -> HoOut {
-        let obs = |s: &str| -> String {
-            let o = observe(s);
-            match what {
-                0 => o.sql,
-                1 => o.rq,
-                _ => o.fmt,
-            }
-        };
+        explore(
+            &|| {
+                let o = observe(src);
+                match what {
+                    0 => o.sql,
+                    1 => o.rq,
+                    _ => o.fmt,
+                }
+            },
+            max_devs,
+        )
+    }
+
+    /// the same exploration for any observation (multi-file projects)
+    pub fn explore(observe_once: &dyn Fn() -> String, max_devs: usize) -> HoOut {
+        let src = ();
+        let obs = |_: ()| -> String { observe_once() };
         let (base, t0) = run_with(&[], 0, || obs(src));
         // own the choices: the baseline run twice must give the same trace and observation
         let (base2, t0b) = run_with(&[], 0, || obs(src));
@@ -295,6 +304,11 @@ fn projects() -> Vec<Vec<(&'static str, &'static str)>> {
         vec![("Main.prql", "from t | derive x = helpers.double a | select {x}"), ("helpers.prql", "let double = v -> v * 2")],
         vec![("Main.prql", "from q.base | join other.u2 (==a) | select {base.a, u2.d}"), ("q.prql", "let base = (from t | select {a, b})"), ("other.prql", "let u2 = (from u | select {a, d})")],
         vec![("Main.prql", "from a.t1 | derive z = b.k + c.k"), ("a.prql", "let t1 = (from t | select {x})"), ("b.prql", "let k = 1"), ("c.prql", "let k = 2")],
+        // a module that uses a sibling module (in both alphabetical directions)
+        vec![("Main.prql", "from reports.recent | select {a}"), ("base.prql", "let old = (from t | filter b > 2000)"), ("reports.prql", "let recent = (from base.old | select {a, b})")],
+        vec![("Main.prql", "from aa.recent | select {a}"), ("zz.prql", "let old = (from t | filter b > 2000)"), ("aa.prql", "let recent = (from zz.old | select {a, b})"), ("mm.prql", "let k = 1")],
+        // syntax errors in two sibling modules
+        vec![("Main.prql", "from t"), ("one.prql", "let x = = 1"), ("two.prql", "let y = (from t | select {a,, b})")],
         // an error in one module
         vec![("Main.prql", "from t | derive x = helpers.double a"), ("helpers.prql", "let double = v -> v * nosuch"), ("zz.prql", "let unused = 1")],
         // a syntax error in one module and one in the root
@@ -363,6 +377,27 @@ pub fn run(tier: Tier) -> i32 {
                     Some(format!("output-depends-on-hash-order@{site}")),
                     format!("[{}] probe #{i}: {why}", ["sql/error text", "rq", "formatter"][*what as usize]),
                     json!({"driver":"HO","probe": PROBES[*i], "observable": what, "site": site, "detail": why}),
+                );
+            }
+        }
+        // the multi-file projects under the same exploration (the files of a project live in a hash map)
+        let projs = projects();
+        let pouts = par_map(&projs, || (), |_, files| ho::explore(&|| compile_tree(files), max_devs));
+        for (pi, o) in pouts.into_iter().enumerate() {
+            if o.replay_diverged {
+                eprintln!("MACHINERY ERROR: the baseline run of project {pi} is not reproducible: the harness does not own every choice");
+                return 2;
+            }
+            run.validated += o.executions;
+            run.count("hash_order:executions", o.executions);
+            run.count("hash_order:project_executions", o.executions);
+            run.count("hash_order:permutations_exercised", o.perms_exercised);
+            all_sites.extend(o.sites);
+            for (site, why) in o.bad {
+                run.violate(
+                    Some(format!("output-depends-on-hash-order@{site}")),
+                    format!("[project #{pi}: {:?}] {why}", projs[pi].iter().map(|f| f.0).collect::<Vec<_>>()),
+                    json!({"driver":"HO-project","project": pi, "files": projs[pi], "site": site, "detail": why}),
                 );
             }
         }
